@@ -98,6 +98,24 @@ def gen_cases(ctx, rng):
             stats["delay>0"] += 1
         stats["position"][str(len(pre))] = stats["position"].get(str(len(pre)), 0) + 1
         cases.append(c)
+    # the stage interrupted while it is handing a piece to a receiver that is not ready, or in its wait: nothing lost, nothing repeated
+    stats["interrupted"] = 0
+    for i in range(40 if ctx.tier == "quick" else 1200):
+        a = rng.choice([8, 64, 500])
+        d = rng.choice([0, 1000, 20000])
+        chain = [L.tx("slicer", name="s", average_size=a, size_variation=0, delay=d)] + ([L.tx("noop", name="q")] if rng.chance(1, 2) else [])
+        n = a * rng.range(4, 12) + rng.range(0, a - 1)
+        src = [{"at": 1 * L.MS, "n": n}, {"at": 2 * L.MS, "n": rng.range(1, a)}, {"at": 60000 * L.MS, "close": True}]
+        sd = rng.choice([30, 70, 200]) * L.MS           # the receiver takes this long per write: the slicer is mostly blocked in its send
+        at = rng.range(5, 600) * L.MS + rng.range(1, 999)
+        op = rng.choice(["add", "remove", "update_self", "update_nb"]) if len(chain) == 2 else rng.choice(["add", "update_self"])
+        ops = [{"add": {"at": at, "op": "add", "toxic": L.tx("noop", name="z")},
+                "remove": {"at": at, "op": "remove", "name": "q"},
+                "update_self": {"at": at, "op": "update", "name": "s", "body": '{"attributes": {"average_size": %d}}' % a},
+                "update_nb": {"at": at, "op": "update", "name": "q", "body": '{"toxicity": 1}'}}[op]]
+        cases.append({"dir": rng.choice(["upstream", "downstream"]), "chain": chain, "src": src, "ops": ops, "sink_delay": [sd], "interrupted": True,
+                      "horizon": 3600 * 1000 * L.MS, "seed": 6000 + i})
+        stats["interrupted"] += 1
     return cases, stats
 
 
@@ -110,8 +128,8 @@ def oracle(case, res):
     if res["total"] != sent:
         return "receiver got %d of %d bytes" % (res["total"], sent)
     sls = [t for t in case["chain"] if t["type"] == "slicer"]
-    if not sls:
-        return None
+    if not sls or case.get("interrupted"):
+        return None                          # interrupted runs: content and completeness only (the remainder is flushed as one piece)
     sl = sls[0]["attributes"]
     bound = sl["average_size"] + sl["size_variation"]
     ws = res["writes"] or []
@@ -161,7 +179,10 @@ def run(ctx):
     rc, out = C.sh([os.path.join(C.BUILD, "vt.test"), "-test.run", "^TestHarness$", "-mode", "pure", "-in", fin, "-out", fout],
                    env=C.GOENV, timeout=600)
     pure_fail, pure_mis = [], {}
-    if rc != 0 or not os.path.exists(fout):
+    unavailable = getattr(ctx, "pure_unavailable", None)
+    if unavailable:
+        prs = []                                    # the shim does not compile: the direct differential is not established (tie broken)
+    elif rc != 0 or not os.path.exists(fout):
         pure_fail.append((0, "the chunk function crashed the process: " + out[-300:]))
         prs = []
     else:
@@ -194,6 +215,11 @@ def run(ctx):
             mis = {}
         extra.update({"pure_chunk_calls": len(pure_cases), "pure_oracle_failures": len(pf), "pure_model_mismatches": len(mis),
                       "pure_sample": {"case": pure_cases[len(pure_cases) // 2], "result": (prs2[len(pure_cases) // 2] if prs2 else None)}})
+        if getattr(ctx, "pure_unavailable", None) and not self.findings_with_input():
+            self.add("tie-broken", "the direct differential of slicer.chunk cannot be established: the verif shim VerifChunk no longer compiles against "
+                     "the working tree (the function's signature changed); no failing input was found by the link runs",
+                     {"kind": "correspondence", "names": "toxics/export_verif.go VerifChunk <-> SlicerToxic.chunk", "build_output": ctx.pure_unavailable},
+                     has_input=False)
         if pf:
             i, w = pf[0]
             self.add("chunk-spec", "slicer.chunk: " + w, {"kind": "failing-input", "pure": True, "case": pure_cases[i],
@@ -211,11 +237,12 @@ def run(ctx):
             classify=lambda w: "piece-bound" if "piece of" in w else ("delay" if "apart" in w else ("stream-not-exact" if "bytes" in w else "crash")),
             rule="(1) direct calls of slicer.chunk through the verif shim over a grid of (average, variation, n) with 0 <= v < a plus random "
                  "triples up to 64 KiB, draws mirrored from the seed; (2) links with one slicer (variation 0 exact; variation > 0 with "
-                 "mirrored draws) at positions 1-3, random writes/pacing; non-trivial = slicer cuts at least one chunk; distinct by JSON",
+                 "mirrored draws) at positions 1-3, random writes/pacing; (3) links whose slicer is interrupted (neighbour added / removed / "
+                 "updated, own attributes rewritten) while it hands a piece to a slow receiver or waits between pieces; non-trivial = slicer cuts at least one chunk; distinct by JSON",
             nontrivial=lambda c: any(e.get("n", 0) > ([t for t in c["chain"] if t["type"] == "slicer"] or [{"attributes": {"average_size": 1 << 40}}])[0]["attributes"]["average_size"] for e in c["src"]),
             assumptions=["math/rand.Intn(n) returns values in [0,n) (mirrored from the same seed)",
-                         "interruption at piece boundaries is covered by the theorem C12_stream_exact and by the C02/C04 reconfiguration runs"],
-            extra_targets=["Run/PureRun.vo"], extra_cov=extra_cov)
+                         "interruption at piece boundaries: theorem C12_stream_exact; interrupted links are judged on content and completeness by the oracle"],
+            extra_targets=["Run/PureRun.vo"], extra_cov=extra_cov, model_filter=lambda c: not c.get("ops"))
     finally:
         C.Verdict.finish = orig_finish
 
